@@ -545,6 +545,53 @@ def scaling(chk, repo, mw, d, eq):
         chk.ob('R16.4', f'build_from_world [override: {olab}]: the derived stack is contiguous and ends at the world radius', not badg, '; '.join(badg[:3]), where, key=f'R16.4|bfw-geometry|{olab}', method='interpretation + GF(p^2) PIT')
         chk.ob('R16.4', f'build_from_world [override: {olab}]: parent configuration and override untouched', repr(cfg) == snapshot and repr(ov) == ov_snapshot, 'an input dictionary was modified', where,
                key=f'R16.4|bfw-inputs|{olab}', method='interpretation, object identity')
+    # the same derivation from parents whose layers are placed in the other ways a configuration may place them (a thickness instead of a radius, a top layer that takes the
+    # world radius): build_world on such a configuration is contiguous (R16.3 / R16.7), so the world derived from it -- even with an empty override -- must be as well, with
+    # every layer where the parent had it
+    t2 = X.atom('t_mantle', 'pos'); t1 = X.atom('t_core', 'pos'); t3 = X.atom('t_crust', 'pos')
+    shapes = {
+        'a thickness-only layer between radius-defined ones': ({'Core': {'radius': r1}, 'Mantle': {'thickness': t2}, 'Crust': {'radius': r1 + t2 + t3}}, r1 + t2 + t3, [r1, r1 + t2, r1 + t2 + t3]),
+        'thickness everywhere': ({'Core': {'thickness': t1}, 'Mantle': {'thickness': t2}, 'Crust': {'thickness': t3}}, t1 + t2 + t3, [t1, t1 + t2, t1 + t2 + t3]),
+        'thickness-only core below radius-defined layers': ({'Core': {'thickness': t1}, 'Mantle': {'radius': t1 + t2}, 'Crust': {'radius': t1 + t2 + t3}}, t1 + t2 + t3, [t1, t1 + t2, t1 + t2 + t3]),
+        'bare top layer (takes the world radius)': ({'Core': {'radius': r1}, 'Mantle': {'radius': r1 + t2}, 'Crust': {}}, r1 + t2 + t3, [r1, r1 + t2, r1 + t2 + t3]),
+        'thickness-only layer below a bare top layer': ({'Core': {'radius': r1}, 'Mantle': {'thickness': t2}, 'Crust': {}}, r1 + t2 + t3, [r1, r1 + t2, r1 + t2 + t3]),
+    }
+    for slab, (lay, Rworld, want_r) in shapes.items():
+        for olab, ov in (('empty override', {}), ('bottom layer density', {'layers': {'Core': {'density': rho_new}}})):
+            it = Interp(repo, hooks={'global': glob_hook, 'call': call_hook}, max_depth=12, max_unroll=200)
+            cfg = {'name': 'Xworld', 'radius': Rworld, 'type': 'layered', 'layers': {ln_: {**spec, 'density': rho[i_], 'type': 'rock'} for i_, (ln_, spec) in enumerate(lay.items())}}
+            old = Obj(name='old', attrs={'config': cfg, 'name': 'Xworld'})
+            snapshot = repr(cfg)
+            recorded.clear()
+            lab2 = f'parent with {slab}; {olab}'
+            where = mw.where(f_from)
+            try:
+                it.call(mw, f_from, [old, ov], {})
+            except RaiseSignal as ex:
+                chk.ob('R16.4', f'build_from_world [{lab2}]: derivation succeeds', False, f'raises {ex.text[:100]}', where, key=f'R16.4|bfw-shape|{slab}|{olab}', method='interpretation'); continue
+            built = recorded.get('built', (None, None))[1]
+            if not isinstance(built, dict) or not isinstance(built.get('layers'), dict):
+                raise AnalysisError('build_from_world: the configuration handed to build_world was not captured')
+            order = list(built['layers'])
+            it_g = Interp(repo)
+            below = None; badg = []
+            if order != list(lay): badg.append(f'stacking order {order}')
+            for idx, ln_ in enumerate(order):
+                nl = built['layers'][ln_]
+                try:
+                    rad, thick, vol_, mass_, dens_ = it_g.call(mh_, fg_, [dict(nl), idx, idx == len(order) - 1, X.lift(built['radius']), None, below])
+                except (RaiseSignal, AnalysisError) as ex:
+                    badg.append(f'{ln_}: geometry cannot be derived from the derived configuration'); break
+                want_in = X.ZERO if idx == 0 else X.lift(below)
+                if not d.equal(rad - thick, want_in): badg.append(f'{ln_}: inner radius is not the radius of the layer below')
+                if idx < len(want_r) and not d.equal(rad, want_r[idx]): badg.append(f'{ln_}: outer radius differs from the parent\'s')
+                below = rad
+            if below is not None and not badg and not d.equal(X.lift(below), X.lift(built['radius'])):
+                badg.append('the top layer does not end at the world radius')
+            chk.ob('R16.4', f'build_from_world [{lab2}]: the derived stack is contiguous, ends at the world radius and has every layer where the parent had it', not badg, '; '.join(badg[:3]), where,
+                   key=f'R16.4|bfw-shape|{slab}|{olab}', method='interpretation of build_from_world, then find_geometry_from_config on the derived configuration layer by layer + GF(p^2) PIT')
+            chk.ob('R16.4', f'build_from_world [{lab2}]: parent configuration untouched', repr(cfg) == snapshot, 'the parent configuration was modified', where, key=f'R16.4|bfw-shape-inputs|{slab}|{olab}',
+                   method='interpretation, object identity')
     # derivation chains: names stay distinct and the chain terminates
     it = Interp(repo, hooks={'global': glob_hook, 'call': call_hook}, max_depth=12, max_unroll=200)
     name = 'Earth_Simple'
